@@ -47,3 +47,12 @@ chk("C24", "model_checking", "BFS over reachable store contents per prefix pair;
 chk("C33", "model_checking", "bounded-depth exhaustive enumeration of AddRoot/GetFrameRoots/epoch-switch/restart sequences on the real abft.Store for 16 cache configurations, against a set model",
     "Every sequence up to depth 4 (quick) / 6 (thorough) over 12 AddRoot variants (multi-frame jumps, two events of one creator), 3 queries, epoch switch through Orderer.Reset and restart over the same DBs, for RootsNum in {0,1,2,1000} x RootsFrames in {0,1,2,100}; every query result and a final double query of all frames are compared, as sets of (frame, validator, id), with the model; new epoch => empty.",
     "The LRU inside the store is hidden state, so sequences are not deduplicated.", "E2; DESIGN §3.2 C33")
+
+ENGINES.append({"name": "E-lattice", "path": "/verif/cons", "serves_properties": ["C01", "C02", "C03", "C04", "C05", "C06", "C07", "C08", "C09", "C10", "C20"], "kind_free_text": "exhaustive DAG families x ideal-lattice exploration (all parents-first orders) of the real consensus/index code against the graph-based reference ref/lachesis"})
+ENGINES.append({"name": "E2-seq", "path": "/verif/harness", "serves_properties": ["C19", "C22", "C24", "C27", "C29", "C33"], "kind_free_text": "explicit-state / bounded-sequence exploration of real sequential objects against boring reference models (ref/kv, list, refcount)"})
+chk("C05", "model_checking", "exhaustive DAG families x ideal lattice (every parents-first indexing order) on the real vecfc.Index; full ForklessCause matrix vs graph definition on every edge",
+    "All DAGs of the bounded families (all shapes up to N events for weight vectors [1,1],[3,1],[1,1,1],[2,1,1],[1,2,3],[1,1,1,1],[2,1,1,1]; 0-2 fork events at every position; a structured 3-branch multi-fork family where one event observes several branches at once) are indexed in every parents-first order (ideal lattice, fresh index + replay per edge); on every edge ForklessCause(A,B) for all pairs is compared with the bitset graph definition, asked warm, again, and cold (fresh index over the persisted data), with cache sizes lite/1/0/default and with interrupted additions (Add+DropNotFlushed, Add+Reset) before the real one.",
+    "Trusted base: ref/lachesis FC/ForkSeen (graph closure). Bounds: N<=6 quick (<=8 thorough), <=4 validators.", "E-lattice; DESIGN §3.2 C05")
+chk("C06", "model_checking", "same exploration as C05; merged vector clock of every event for every validator vs graph definition on every edge",
+    "Same DAG families and lattice exploration as C05; on every edge GetMergedHighestBefore(e).Get(i) for every indexed event and validator is compared with 'fork seen in ancestry, else highest sequence among ancestors' computed by graph closure; warm, repeated and cold.",
+    "Trusted base: ref/lachesis Clock.", "E-lattice; DESIGN §3.2 C06")
